@@ -39,12 +39,13 @@ func init() {
 
 // input is the replayable description of one case.
 type input struct {
-	Op    string `json:"op"` // "parse" | "roundtrip" | "ctor"
-	Kind  string `json:"kind,omitempty"`
-	Text  string `json:"text,omitempty"`
-	Value int    `json:"value,omitempty"`
-	Fn    string `json:"fn,omitempty"`
-	Args  []int  `json:"args,omitempty"`
+	Op    string   `json:"op"` // "parse" | "roundtrip" | "ctor"
+	Kind  string   `json:"kind,omitempty"`
+	Text  string   `json:"text,omitempty"`
+	Value int      `json:"value,omitempty"`
+	Fn    string   `json:"fn,omitempty"`
+	Args  []int    `json:"args,omitempty"`
+	Path  []string `json:"path,omitempty"`
 }
 
 // ---------------------------------------------------------------------------------------------
@@ -216,6 +217,8 @@ func replay(class string, raw json.RawMessage) (string, bool) {
 	}
 	k, _ := kindOf(in.Kind)
 	switch in.Op {
+	case "statepath":
+		return replayStatePath(in)
 	case "parse":
 		v, accepted, got, o := judgeParse(k, in.Text)
 		desc := fmt.Sprintf("%s(%q): reference=%s %s value=%d; library accepted=%v value=%d", parserName(k), in.Text, v.Kind, v.Reason, v.Value, accepted, got)
@@ -272,6 +275,7 @@ func (c *ctx) mergeUncl(m map[string]int64) {
 
 func run(r *enumlib.Run) {
 	c := &ctx{r: r, uncl: map[string]int64{}}
+	c.stateSpace() // first: the package is in the state its initialisation left it in
 	c.roundTrip()
 	c.crossParser()
 	c.tuples()
